@@ -2987,7 +2987,10 @@ def rule_pre_check_scalar_scales(repo, rep):
             continue
         n += 1
         first = min(u.lineno for u in uses)
-        guards = [i_ for i_ in ast.walk(fn) if isinstance(i_, ast.If) and "is_per_axis()" in str(norm(i_.test)) and i_.body and isinstance(i_.body[-1], ast.Return) and i_.lineno < first]
+        # a local that holds the per-axis test counts as the test
+        pa_locals = {st_.targets[0].id for st_ in ast.walk(fn) if isinstance(st_, ast.Assign) and isinstance(st_.targets[0], ast.Name) and "is_per_axis()" in str(norm(st_.value))}
+        guards = [i_ for i_ in ast.walk(fn) if isinstance(i_, ast.If) and ("is_per_axis()" in str(norm(i_.test)) or any(isinstance(x_, ast.Name) and x_.id in pa_locals for x_ in ast.walk(i_.test)))
+                  and i_.body and isinstance(i_.body[-1], ast.Return) and i_.lineno < first]
         rep.check(bool(guards), "C13-bg", f"ethosu/vela/tflite_graph_optimiser.py:{nm}", f"{len(uses)} scalar uses of scale_f32 follow a returning `is_per_axis()` test",
                   "no per-axis test before the scale is used as a scalar: QUANTIZE of a constant into a per-axis quantised output hands an array to quantise_scale (TypeError in math.frexp) - the rewrite runs before the supported-operator check")
     if n < 1:
